@@ -78,8 +78,8 @@ fcppt::container::tree::object<T> &fcppt::container::tree::object<
 
   this->value_ = _other.value_;
 
-  this->parent_ = nullptr;
-
+  // parent_ stays as it is: assigning to a node does not take it out of the
+  // child list of its parent.
   this->children_ = this->copy_children(_other.children_);
 
   return *this;
@@ -91,9 +91,10 @@ fcppt::container::tree::object<T> &fcppt::container::tree::object<T>::operator=(
 {
   value_ = std::move(_other.value_);
 
+  // parent_ stays as it is (and _other keeps its own): assigning to a node does
+  // not take it out of the child list of its parent. _other must not be touched
+  // after this line, it may have been one of the children that were just replaced.
   children_ = this->move_children(std::move(_other.children_));
-
-  std::swap(parent_, _other.parent_);
 
   return *this;
 }
